@@ -24,7 +24,7 @@ ALLOC = {"zeros", "ones", "empty", "full", "array", "arange", "linspace", "hstac
          "nonzero", "argsort", "searchsorted", "histogram", "digitize", "atleast_2d", "atleast_1d", "gaussian", "hamming", "fftfreq", "fft",
          "to_dict", "astype", "flatten", "tolist", "from_dict", "drop", "reset_index", "join", "concat", "reshape_copy", "format_timestamps",
          "return_timestamps", "isnan", "any", "all", "logical_and", "logical_or", "exp", "log", "prod", "tile", "nanmin", "nanmax", "squeeze_copy",
-         "sort_timestamps", "convert_to_numpy_array", "as_dataframe", "to_numpy", "nan_to_num", "maximum", "minimum", "full_like"}
+         "sort_timestamps", "convert_to_numpy_array", "as_dataframe", "as_series", "set_axis", "to_numpy", "nan_to_num", "maximum", "minimum", "full_like"}
 SCALAR_CALLS = {"len", "int", "float", "bool", "range", "min", "max", "ceil", "floor", "rint", "str", "enumerate", "sum_scalar", "prod_scalar"}
 
 
@@ -205,6 +205,10 @@ def extract():
                             for tt in (t.elts if isinstance(t, ast.Tuple) else [t]):
                                 if isinstance(tt, ast.Subscript):
                                     add("setitem", tt)
+                                elif isinstance(tt, ast.Attribute) and not (isinstance(tt.value, ast.Name) and tt.value.id == "self"):
+                                    # `obj.attr = value` on something other than self: rebinding an attribute of an object the
+                                    # function did not create (e.g. `metadata.index = ...` on a caller's DataFrame) is an in-place write
+                                    add("setattr:" + tt.attr, tt.value)
                     elif isinstance(n, ast.Call):
                         nm = call_name(n)
                         if isinstance(n.func, ast.Attribute) and nm in ("sort", "fill", "resize", "itemset", "partition", "setfield", "byteswap_inplace"):
